@@ -513,7 +513,8 @@ func (cv *conv) expect() expectation {
 			if ce.Dir[0].Lossy || ce.Dir[1].Lossy {
 				ce.Dir[0].NoStart, ce.Dir[1].NoStart = true, true
 			}
-			ce.Optional = len(ce.Dir[0].Sent) == 0 && len(ce.Dir[1].Sent) == 0
+			// (no payload byte of either direction in a completely captured datagram)
+			ce.Optional = !(ce.Dir[0].Prefix > 0 || ce.Dir[0].Behind || ce.Dir[1].Prefix > 0 || ce.Dir[1].Behind)
 		}
 		for si, s := range cv.segs {
 			if synSeen && s.Conn == ci && s.Kind == "synack" && !captured[si] {
